@@ -161,7 +161,7 @@ def theorem_names(prop_id):
     out = []
     for f in prop_modules(prop_id):
         src = strip_comments(f.read_text())
-        out += [f"Vrp.{prop_id}.{m}" for m in re.findall(r"^theorem\s+([A-Za-z0-9_'.]+)", src, flags=re.M)]
+        out += [f"Vrp.{prop_id}.{m}" for m in re.findall(r"^theorem\s+([^\s\(\{\[:]+)", src, flags=re.M)]
     return out
 
 
